@@ -130,6 +130,7 @@ EvalEv ==
   /\ Is("eval")
   /\ LET r == T.r IN
      /\ Checks(<< <<mode = "exec" /\ ~done, "PROTO-eval-outside-exec">>,
+                  <<~T.del, "C16-removed-rule-evaluated">>,
                   <<r \in Names, "PROTO-unknown-rule">>,
                   <<r \in Names => ~rules[r].del, "C16-removed-rule-evaluated">>,
                   <<r \notin retracted, "C10-retracted-rule-evaluated">>,
@@ -157,6 +158,7 @@ ExecEv ==
          trueNow == {c \in Active : Truth(c)}
      IN
      /\ Checks(<< <<mode = "exec" /\ ~done, "PROTO-exec-outside-exec">>,
+                  <<~T.del, "C16-removed-rule-fired">>,
                   <<known, "PROTO-unknown-rule">>,
                   <<pendErr = "", "C14-exec-after-action-error">>,
                   <<~complete, "C10-exec-after-complete">>,
@@ -236,6 +238,7 @@ RetFetch ==
        <<T.facts = facts, "C11-fetch-changed-facts">>,
        <<(flag /\ anyBroken) => (e = "evalerr" /\ T.rule \in Live /\ Broken(T.rule)), "C11-evaluation-error-not-returned">>,
        <<~(flag /\ anyBroken) => e = "nil", "C11-spurious-error">>,
+       <<e = "nil" => ~T.anydel, "C16-removed-rule-returned">>,
        <<e = "nil" => got \subseteq Names, "C11-unknown-rule-returned">>,
        <<e = "nil" => \A r \in got \cap Names : ~rules[r].del, "C11-removed-rule-returned">>,
        <<e = "nil" => got \subseteq want, IF \E r \in got \cap Live : Broken(r) THEN "C11-failing-rule-returned" ELSE "C11-unsatisfied-rule-returned">>,
